@@ -14,6 +14,7 @@ package asn
 // verif_forall_range is a bounded quantifier and is executable, so that the replay harness can
 // evaluate post-conditions on the real function's results.
 func verif_forall[T any](f func(T) bool) bool { return true }
+
 // verif_disjoint: the element windows of the two slices do not overlap (interpreted by govc)
 func verif_disjoint(a, b []byte) bool { return true }
 func verif_forall_range(lo, hi int, f func(int) bool) bool {
@@ -304,8 +305,8 @@ func specSigned(u int64, n int, b0 byte) int64 {
 
 // ---- round-trip lemmas (C05): decoder composed with encoder through their contracts ------
 
-//@ lemma verifLemmaIntRoundTrip [C05]
-//@   ensures err == nil && r == i
+// @ lemma verifLemmaIntRoundTrip [C05]
+// @   ensures err == nil && r == i
 func verifLemmaIntRoundTrip(i int64) (r int64, err error) {
 	e := int64Encoder(i)
 	dst := make([]byte, e.Len())
@@ -313,8 +314,8 @@ func verifLemmaIntRoundTrip(i int64) (r int64, err error) {
 	return parseSignedInt64(dst)
 }
 
-//@ lemma verifLemmaBoolRoundTrip [C05]
-//@   ensures err == nil && r == v
+// @ lemma verifLemmaBoolRoundTrip [C05]
+// @   ensures err == nil && r == v
 func verifLemmaBoolRoundTrip(v bool) (r bool, err error) {
 	var e byteEncoder
 	if v {
@@ -327,10 +328,10 @@ func verifLemmaBoolRoundTrip(v bool) (r bool, err error) {
 	return parseBool(dst[0])
 }
 
-//@ lemma verifLemmaBitStringRoundTrip [C05]
-//@   requires specBitStringOK(b)
-//@   ensures err == nil && r.BitLength == b.BitLength && len(r.Bytes) == len(b.Bytes)
-//@   ensures forall k int :: 0 <= k && k < len(b.Bytes) ==> r.Bytes[k] == b.Bytes[k]
+// @ lemma verifLemmaBitStringRoundTrip [C05]
+// @   requires specBitStringOK(b)
+// @   ensures err == nil && r.BitLength == b.BitLength && len(r.Bytes) == len(b.Bytes)
+// @   ensures forall k int :: 0 <= k && k < len(b.Bytes) ==> r.Bytes[k] == b.Bytes[k]
 func verifLemmaBitStringRoundTrip(b BitString) (r BitString, err error) {
 	e := bitStringEncoder(b)
 	dst := make([]byte, e.Len())
